@@ -8,7 +8,7 @@ import impl
 import engine
 import exchange as X
 from docs import (to_text, element_action, ref, item_delete, story_move, item_move_multiple, ro_delete,
-                  story_append, story_delete, ready_to_air, metadata_replace, E)
+                  story_append, story_delete, ready_to_air, metadata_replace, ro_replace, E)
 from checks.base import corpus_cases
 
 LEVEL = 'proof'
@@ -48,8 +48,11 @@ def sequences(tier, rng):
                 d = ready_to_air(10 + j)
             elif r < 0.9:
                 d = metadata_replace(10 + j, [E('roSlug', text='slug %d' % j)])
-            elif r < 0.95:
+            elif r < 0.93:
                 d = gens.make_ro(['X'], message_id=10 + j) if rng.random() < 0.3 else story_move(10 + j, ['ZZ', 'A'])
+            elif r < 0.97:
+                d = ro_replace(10 + j, [gens.new_story(fresh()) for _ in range(rng.randrange(0, 3))] +
+                               ([gens.new_story(rng.choice(cur_s))] if cur_s and rng.random() < 0.5 else []))
             else:
                 d = ro_delete(10 + j)
             t = to_text(d)
@@ -98,7 +101,7 @@ def hand_fold(docs, strict):
 class Check:
     pid = 'C09'
     rule = ('seeded random sequences of 1..10 [1..40] messages of mixed types (story-level, item-level, metadata, '
-            'ready-to-air, second roCreate, roDelete in the middle) built against the evolving state so that most resolve, '
+            'ready-to-air, second roCreate, roReplace and roDelete in the middle) built against the evolving state so that most resolve, '
             'with unresolvable ones at random placements, supplied in shuffled order; each merged strict and non-strict, '
             'through from_strings and from_files; compared with the model loop and with a hand fold of `ro += msg` over '
             'freshly parsed messages. distinct by (#messages, #failing, mode, constructor, exception)')
